@@ -32,7 +32,9 @@ RULE = ("default_*: every raster of the listed shape over the listed alphabet (r
         "cell); config_*: every {0,T} layout x coordinate system x metric x max_distance x target_values (config_HxW: the "
         "first seven coordinate systems; config_wide_HxW: the wide-cell systems x2_y0.5 and lonlat_arctic_wide, with the "
         "very large finite max_distance 'huge' next to the unbounded one; config_huge_HxW: the first seven systems x "
-        "metric under max_distance 'huge', default targets); "
+        "metric under max_distance 'huge', default targets; config_max0_HxW: all nine systems x metric x max_distance 0 "
+        "given as the int 0 and as the float 0.0, 3x3 with default targets and 2x3 with every target_values option: only "
+        "target cells have a target within max_distance, every other cell must be NaN in all three outputs); "
         "conf_*: all {0,T} layouts of 2x3 x metric and a fixed slice of 3x3 layouts x metric x configuration variants, "
         "run compiled (jit) and interpreted (twin space, same cases); sparse_HxW_leK: every placement of <= K targets; "
         "precision_HxW[_leK]: every layout over {0, a, b} (all 729 of 2x3; 3x3 with <= K non-background cells: K = 2 quick, 5 thorough) x value pair (a, b) that float32 cannot tell apart or cannot hold (PRECISION: 0.3 vs float32(0.3) and 2^24+1 vs "
@@ -71,8 +73,12 @@ ASSUMPTIONS = [
     "exactness p == D* is asserted on every exhaustively enumerated grid (<= 16 cells; the quick tier runs the <= 4-target "
     "layouts of the 4x4 grid that the thorough tier enumerates completely) and for single-target layouts; on "
     "the other sparse_* grids (6x6, 2x8, 8x2: not exhaustive layout spaces) it is only counted for layouts with >= 2 targets",
-    "not generated: +-inf cells, NaN or inf inside target_values, max_distance <= 0 or NaN, dask-backed rasters (C07), "
+    "not generated: +-inf cells, NaN or inf inside target_values, max_distance < 0 or NaN, dask-backed rasters (C07), "
     "rasters without coordinates, dims other than ('y','x')",
+    "max_distance = 0 ('all max_distance': the smallest non-negative bound) is in the domain: a target cell is at distance "
+    "0 <= 0 from itself and keeps proximity 0 / its own value / direction 0, every non-target cell has no target within "
+    "max_distance and must be NaN in all three outputs; a non-target cell that is the same point on the sphere as a target "
+    "(D* <= 1e-6) is a tie there as well",
     "explicit target_values are run on {0,T} layouts whose T cells carry the class value 1 + (row+col) % 3 "
     "(so that non-zero non-target cells and several targets per value occur); allocation then names the class and "
     "proximity + direction pin the cell",
@@ -109,6 +115,7 @@ SYS_WIDE = SYS_NAMES[7:]
 METRICS = ["EUCLIDEAN", "MANHATTAN", "GREAT_CIRCLE"]
 MAXD = ["inf", "1u", "1.5u", "2.3u", "diag"]
 MAXD_WIDE = ["inf", "huge", "1u", "1.5u", "2.3u", "diag"]
+MAXD_ZERO = ["0", "0.0"]      # the lower end of the max_distance domain, as the int 0 and as the float 0.0
 HUGE = 1e8                    # 'huge': finite, beyond every distance of every grid (half the Earth's circumference is 2.0e7 m)
 TVS = [("default", None), ("[2]", [2]), ("[3,1]", [3, 1]), ("[0]", [0])]
 
@@ -119,6 +126,10 @@ def max_distance_value(name, ys, xs, metric):
         return float("inf")
     if name == "huge":
         return HUGE
+    if name == "0":
+        return 0                  # passed as a Python int
+    if name == "0.0":
+        return 0.0
     if name == "diag":
         return float(orc.distance(metric, xs[0], ys[0], xs[-1], ys[-1]))
     sx, sy = abs(float(xs[1] - xs[0])), abs(float(ys[1] - ys[0]))
@@ -177,6 +188,7 @@ def judge(a, outs, D, B, tv, maxd, exact):
     tm = orc.target_mask(a, tv).ravel()
     Ds = orc.nearest(D, tm)
     pn, an, dn = np.isnan(p), np.isnan(al), np.isnan(dr)
+    maxd = float(maxd)
     bounded = maxd != float("inf")
     tol_m = RTOL * maxd + ATOL if bounded else 0.0
     ties = 0
@@ -209,6 +221,9 @@ def judge(a, outs, D, B, tv, maxd, exact):
     if tm.any():
         beyond = Ds > maxd + tol_m if bounded else np.zeros(len(p), bool)
         exact_tie = bounded & (Ds == maxd) & (Ds.astype(np.float32).astype(np.float64) == Ds)
+        # max_distance 0: a non-target cell that is the same point as a target (pole row) is at distance 0 = max_distance;
+        # whether it then reports that target or NaN is the same open question as 'proximity 0 on it' above -> tie
+        exact_tie &= ~(~tm & (Ds <= COINCIDENT))
         tie_m = (np.abs(Ds - maxd) <= tol_m) & ~exact_tie if bounded else np.zeros(len(p), bool)
     else:
         beyond = np.ones(len(p), bool)
@@ -560,11 +575,11 @@ class PrecisionConfSpace(ProxSpace):
 
 TIERS = {
     "quick": dict(thin=[(1, 1), (1, 2), (2, 1), (1, 5), (5, 1), (2, 2)], default=[((3, 3), 3)], dtypes=(3, 3),
-                  config=((3, 3), 3), config_wide=((3, 3), 2), config_huge=(3, 3), sparse=[((4, 4), 4, True), ((6, 6), 2, False), ((2, 8), 3, False), ((8, 2), 3, False)],
+                  config=((3, 3), 3), config_wide=((3, 3), 2), config_huge=(3, 3), config_max0=[((3, 3), 1), ((2, 3), 4)], sparse=[((4, 4), 4, True), ((6, 6), 2, False), ((2, 8), 3, False), ((8, 2), 3, False)],
                   slice=(4, 2), precision=[((2, 3), 6), ((3, 3), 2)], precision_conf=1),
     "thorough": dict(thin=[(1, 1), (1, 2), (2, 1), (1, 5), (5, 1), (2, 2), (1, 7), (7, 1), (2, 3), (3, 2)],
                      default=[((3, 3), 3), ((2, 5), 3), ((3, 4), 3), ((4, 4), 2)], dtypes=(3, 3),
-                     config=((3, 4), 4), config_wide=((3, 4), 3), config_huge=(3, 4), sparse=[((6, 6), 3, False), ((2, 8), 4, False), ((8, 2), 4, False)], slice=(32, 4),
+                     config=((3, 4), 4), config_wide=((3, 4), 3), config_huge=(3, 4), config_max0=[((3, 4), 1), ((3, 3), 4)], sparse=[((6, 6), 3, False), ((2, 8), 4, False), ((8, 2), 4, False)], slice=(32, 4),
                      precision=[((2, 3), 6), ((3, 3), 5)], precision_conf=4),
 }
 BOUNDS = {t: {"default_configuration": [dict(shape=list(s), letters=["0", "T", "NaN"][:n]) for s, n in b["default"]],
@@ -578,7 +593,10 @@ BOUNDS = {t: {"default_configuration": [dict(shape=list(s), letters=["0", "T", "
               "configuration_product_huge_max_distance_0T": dict(shape=list(b["config_huge"]), coordinate_systems=SYS_BASE,
                                                                  metrics=METRICS, max_distance=["huge"],
                                                                  target_values=["default"]),
-              "max_distance_options": {"inf": "argument omitted", "huge": HUGE, "Nu": "N x the metric's length of "
+              "configuration_product_zero_max_distance_0T": [dict(shape=list(sh), coordinate_systems=SYS_NAMES, metrics=METRICS,
+                                                                  max_distance=MAXD_ZERO, target_values=[n for n, _ in TVS[:ntv]])
+                                                             for sh, ntv in b["config_max0"]],
+              "max_distance_options": {"inf": "argument omitted", "huge": HUGE, "0": "the int 0", "0.0": "the float 0.0", "Nu": "N x the metric's length of "
                                        "sqrt(sx*sy) coordinate units", "diag": "first-to-last-cell distance in the metric"},
               "sparse_0T": [dict(shape=list(sh), max_targets=k, exactness_asserted="all layouts" if ex else "1 target")
                             for sh, k, ex in b["sparse"]],
@@ -600,6 +618,7 @@ def build(tier):
     spaces.append(ConfigSpace(*b["config"]))
     spaces.append(ConfigSpace(*b["config_wide"], tag="config_wide", systems=SYS_WIDE, maxds=MAXD_WIDE))
     spaces.append(ConfigSpace(b["config_huge"], 1, tag="config_huge", systems=SYS_BASE, maxds=["huge"]))
+    spaces += [ConfigSpace(sh, ntv, tag="config_max0", systems=SYS_NAMES, maxds=MAXD_ZERO) for sh, ntv in b["config_max0"]]
     spaces += [SparseSpace(*sp) for sp in b["sparse"]]
     spaces += [PrecisionSpace(*ps) for ps in b["precision"]]
     for mode in ("jit", "interp"):
